@@ -25,3 +25,5 @@ Definition apply_fixpoint (fuel : nat) (f : formula -> formula) (x : formula) : 
 
 (* Compose::compose: left fold *)
 Definition compose {X} (fs : list (X -> X)) (x : X) : X := fold_left (fun x f => f x) fs x.
+
+(* EXTRACT: apply apply_fixpoint compose *)
